@@ -42,7 +42,8 @@ structure DSt where
   dicts : Array (Nat × Option (Res (List (Nat × Nat)))) := #[]      -- `env D`: none = a list, some r = dict(data)
   ofd : Array (List (Nat × Nat) × Nat) := #[]                       -- `env O`: items -> handle of that dict
   prims : Array (Nat × Prim) := #[]                                 -- `env P`
-  world : World := []                                               -- the Chaperone instances, in creation order
+  heap : Heap := Heap.empty                                         -- list objects + the Chaperone instances, in creation order
+  callerLists : List Nat := []                                      -- the list objects the caller holds on to (`list` lines)
   cur : Nat := 0                                                    -- the one the next operation addresses
   last : Option (Folded Nat) := none                                -- the report of the last `fold` / `map`
   mapfns : List ((String × Nat) × Res Nat) := []                    -- `env M`: what the mapped function did on a structure
@@ -57,7 +58,14 @@ structure DSt where
   excNames : Array String := #[]                                    -- class names of the exceptions callbacks raise
 
 /-- the addressed instance (a default-configured one if none was created yet) -/
-def DSt.inst (st : DSt) : Inst := (st.world[st.cur]?).getD ⟨Cfg.new [], Stats.zero⟩
+def DSt.inst (st : DSt) : Inst := ⟨(st.heap.cfgOf st.cur).getD (Cfg.new []), st.heap.statsOf st.cur⟩
+/-- the implicit default instance of a case that folds before any `new` -/
+def DSt.ensure (st : DSt) : DSt :=
+  if st.heap.insts.isEmpty then { st with heap := st.heap.construct none, cur := 0 } else st
+/-- `Chaperone(strategies=<a list written in place>)`: "none" = None, otherwise a fresh list object nobody else holds -/
+def DSt.createFresh (st : DSt) (c : String) (strs : List Strategy) : DSt :=
+  if c = "none" then { st with heap := st.heap.construct none, cur := st.heap.insts.length }
+  else { st with heap := (st.heap.newList strs).construct (some st.heap.cells.length), cur := st.heap.insts.length }
 /-- the extraction / repair tables the addressed instance sees (the shipped ones unless overridden) -/
 def DSt.curTables (st : DSt) : List Nat × List Nat :=
   match st.tables.find? (fun e => e.1 == st.cur) with
@@ -67,8 +75,8 @@ def DSt.cfg (st : DSt) : Cfg := st.inst.cfg
 def DSt.stats (st : DSt) : Stats := st.inst.stats
 /-- store the counters of the addressed instance (creating the implicit default instance if needed) -/
 def DSt.withStats (st : DSt) (s : Stats) : DSt :=
-  if st.world.isEmpty then { st with world := [⟨Cfg.new [], s⟩], cur := 0 }
-  else { st with world := st.world.setStats st.cur s }
+  let st1 := st.ensure
+  { st1 with heap := st1.heap.setStats st1.cur s }
 
 def lookup (tb : Array (Key × Val)) (k : Key) : Option (Nat × Val) :=
   match tb.findIdx? (fun e => e.1 == k) with
@@ -276,17 +284,17 @@ def step (st : DSt) (toks : List String) : DSt × String :=
     ({ st with mfTab := (fn, (boolOf truthy, .raise (.other (1000 + st.excNames.size)))) :: st.mfTab.filter (fun e => e.1 != fn),
                excNames := st.excNames.push cls }, "ok")
   | ["cochap", how] =>
-    let st1 := if st.world.isEmpty then { st with world := [⟨Cfg.new [], Stats.zero⟩], cur := 0 } else st
+    let st1 := st.ensure
     match how.splitOn ":" with
     | ["reg", fn] => (setCochap st1 (some fn), "ok")
     | ["set", fn] => (setCochap st1 (some fn), "ok")
     | ["del"] => (setCochap st1 none, "ok")
     | _ => (st, "bad-op")
   | ["misfold", fn] =>
-    let st1 := if st.world.isEmpty then { st with world := [⟨Cfg.new [], Stats.zero⟩], cur := 0 } else st
+    let st1 := st.ensure
     (setMisfold st1 (if fn = "-" then none else some fn), "ok")
   | ["newh", c, co, mf] =>
-    let st1 := { st with world := st.world.create (stratsOf c), cur := st.world.length }
+    let st1 := st.createFresh c (stratsOf c)
     let st2 := if co = "-" then st1 else setCochap st1 (some co)
     (if mf = "-" then st2 else setMisfold st2 (some mf), "ok")
   | "env" :: "A" :: fs =>
@@ -322,20 +330,34 @@ def step (st : DSt) (toks : List String) : DSt × String :=
       | some _ => (st, "ok")                       -- first recording wins (the harness checks determinism)
       | none => ({ st with table := st.table.push e }, "ok")
     | none => (st, "bad-env")
-  | ["new", c] => ({ st with world := st.world.create (stratsOf c), cur := st.world.length }, "ok")
+  | ["new", c] => (st.createFresh c (stratsOf c), "ok")
+  | ["list", c] =>
+    -- the caller creates a list object and keeps a reference to it
+    ({ st with heap := st.heap.newList (stratsOf c), callerLists := st.callerLists ++ [st.heap.cells.length] }, "ok")
+  | ["newl", j] =>
+    -- `Chaperone(strategies=<the caller's list j>)`
+    match st.callerLists[natD j]? with
+    | some k => ({ st with heap := st.heap.construct (some k), cur := st.heap.insts.length }, "ok")
+    | none => (st, "no-such-list")
+  | ["lmut", j, t] =>
+    -- the caller edits its own list j in place
+    match st.callerLists[natD j]?, tuneOf t with
+    | some k, some tu =>
+      let h := st.heap.mutate k tu
+      ({ st with heap := h }, showList (((h.cells[k]?).getD []).map showStrat))
+    | _, _ => (st, "bad-op")
   | ["tables", ps, rs] =>
     let ids := fun (x : String) => if x = "-" then [] else (x.splitOn ",").map (natD ·)
     ({ st with tables := (st.cur, ids ps, ids rs) :: st.tables.filter (fun e => e.1 != st.cur) }, "ok")
   | ["newsub", c, ps, rs] =>
     let ids := fun (x : String) => if x = "-" then [] else (x.splitOn ",").map (natD ·)
-    ({ st with world := st.world.create (stratsOf c), cur := st.world.length,
-               tables := (st.world.length, ids ps, ids rs) :: st.tables }, "ok")
-  | ["use", i] => if natD i < st.world.length then ({ st with cur := natD i }, "ok") else (st, "no-such-instance")
+    ({ st.createFresh c (stratsOf c) with tables := (st.heap.insts.length, ids ps, ids rs) :: st.tables }, "ok")
+  | ["use", i] => if natD i < st.heap.insts.length then ({ st with cur := natD i }, "ok") else (st, "no-such-instance")
   | ["tune", t] =>
     match tuneOf t with
     | some tu =>
-      let st1 := if st.world.isEmpty then { st with world := [⟨Cfg.new [], Stats.zero⟩], cur := 0 } else st
-      let st2 := { st1 with world := st1.world.tune st1.cur tu }
+      let st1 := st.ensure
+      let st2 := { st1 with heap := st1.heap.mutate ((st1.heap.cellOf st1.cur).getD 0) tu }
       (st2, showList (st2.cfg.strategies.map showStrat))
     | none => (st, "bad-op")
   | ["fold", raw, call] =>
